@@ -62,8 +62,18 @@ CLAIM = dict(
     note=('The model is tied to /repo on every run: exact-node Qc stream (n_k in {2,3,4}, all eight routines + diff '
           'matrices + error classes), float stream with recorded numpy cos/sin tables (n_k <= 12, both kinds), '
           'func_int_general with the lstsq outputs replayed bit for bit and the lstsq contract validated on every recorded '
-          'call.  The search (independent of the model) checks every clause of the property against '
-          'numpy.polynomial.chebyshev and Fraction integrals.'),
+          'call.  Cross-cutting families (correspondence streams argument_forms, box_edges, histories, scales_shapes and the '
+          'search checks forms / edges / history / scales): every documented argument form (int / np.int64 / float / float32 '
+          'fill value, list / int / float32 / single points, int / float scalars, lists and arrays as bounds, int64 cores); '
+          'points 1e-300 .. 1e-10 and one ulp outside every face, tiny and huge boxes; the same argument objects reused '
+          'across 2-3 interleaved calls of every routine (result = result on fresh copies bit for bit, arguments '
+          'byte-identical afterwards); values scaled by 2^+-200 .. 2^+-900 (must commute bit for bit), boxes +-2^+-300 and '
+          '[2^30, 2^30+2^-20], n_k = 2 everywhere, d = 1, a single point, sine grid m = 1, basis with as many functions as '
+          'points.  Kept OUT (not covered by the property text, quantifier n_k >= 2 / documented types): the Chebyshev grid '
+          'with m = 1 (its only node is cos(pi*0/0) = NaN in ind_to_poi), NumPy integer scalars as bounds (TypeError in '
+          'grid_prep_opt), list / 1-D points for func_get_full (ndarray [samples, d] documented), value scalings whose '
+          'results are subnormal (2^-1000).  The search (independent of the model) checks every clause of the property '
+          'against numpy.polynomial.chebyshev and Fraction integrals.'),
     technique='Coq proof (ring-generic multilinear algebra + real trigonometry) + model/implementation correspondence')
 TRUSTED = ['Coq 8.16.1 kernel + vm_compute (case evaluation; closed Qc computation in C12_diff_matrix_exact_partial)',
            'hand-written models Model/Func.v, Model/FuncFull.v tied to func.py / func_full.py by the correspondence streams',
